@@ -2428,3 +2428,227 @@ func constantInt64(obj *types.Const) (int64, bool) {
 	}
 	return v, true
 }
+
+// ---------------------------------------------------------------------------------------
+// C13 — binary rows carry the same values (wire-class agreement between the writer and the reader tables)
+
+func init() {
+	register("C13", "Clause decided (writer/reader table agreement; the values themselves are NOT decided): for every MySQL column type, the wire class with which mysql.AppendBinaryValue writes a binary-protocol value (1/2/4/8 fixed bytes, length-encoded string, or a self-length-prefixed temporal value) equals the wire class with which the repository's own binary-row reader RowData.ParseBinary reads a value of that type. Both tables are read out of the SSA of the two functions (the body selected by `type == K` for every Type* constant of package mysql, classified by what it appends / how it advances). A type the writer appends without the length prefix the reader expects (or with another width) makes every following column of the row decode wrongly. Types only one side knows are listed, not judged. Value conversion (signedness, precision, dates, NULL bitmap arithmetic) is value-level and not covered.",
+		ruleC13)
+}
+
+func ruleC13(c *Ctx, r *Report) {
+	const rule = "TB-C13"
+	r.floor(rule, 14)
+	w := c.Func("mysql", "AppendBinaryValue")
+	rd := c.Method("mysql", "RowData", "ParseBinary")
+	lenencW := c.Func("mysql", "AppendLenEncStringBytes")
+	lenencR := c.Func("mysql", "ReadLenEncStringAsBytes")
+	lenInt := c.Func("mysql", "ReadLenEncInt")
+	mpkg := c.Pkg("mysql")
+	fType := c.Field("mysql", "Field", "Type")
+	if w == nil || rd == nil || lenencW == nil || lenencR == nil || lenInt == nil || mpkg == nil || fType == nil {
+		r.undecided(rule, "mysql", "anchor", "-", "AppendBinaryValue / RowData.ParseBinary / AppendLenEncStringBytes / ReadLenEncStringAsBytes / ReadLenEncInt / Field.Type not all found")
+		return
+	}
+	// Type* constants
+	names := map[int64][]string{}
+	for _, n := range mpkg.Pkg.Scope().Names() {
+		if !strings.HasPrefix(n, "Type") {
+			continue
+		}
+		cst, ok := mpkg.Pkg.Scope().Lookup(n).(*types.Const)
+		if !ok {
+			continue
+		}
+		if b, ok := cst.Type().Underlying().(*types.Basic); !ok || b.Info()&types.IsInteger == 0 {
+			continue
+		}
+		if v, ok := constantInt64(cst); ok {
+			names[v] = append(names[v], n)
+		}
+	}
+	// bodies selected by `scrutinee == K`
+	bodies := func(fn *ssa.Function, isScrut func(v ssa.Value) bool) map[int64][]*ssa.BasicBlock {
+		out := map[int64][]*ssa.BasicBlock{}
+		allInstrs(fn, func(in ssa.Instruction) {
+			b, ok := in.(*ssa.BinOp)
+			if !ok || b.Op != token.EQL || !isScrut(b.X) {
+				return
+			}
+			k, ok := constInt(b.Y)
+			if !ok {
+				return
+			}
+			for _, e := range condEdges(b) {
+				if e.Val {
+					out[k] = append(out[k], e.If.Block().Succs[e.Succ])
+				}
+			}
+		})
+		return out
+	}
+	isCmpBlock := func(blk *ssa.BasicBlock, isScrut func(v ssa.Value) bool) bool {
+		for _, in := range blk.Instrs {
+			if b, ok := in.(*ssa.BinOp); ok && b.Op == token.EQL && isScrut(b.X) {
+				return true
+			}
+		}
+		return false
+	}
+	region := func(start *ssa.BasicBlock, depth int, isScrut func(v ssa.Value) bool) []*ssa.BasicBlock {
+		seen := map[*ssa.BasicBlock]bool{start: true}
+		out := []*ssa.BasicBlock{start}
+		frontier := []*ssa.BasicBlock{start}
+		for d := 0; d < depth; d++ {
+			var next []*ssa.BasicBlock
+			for _, b := range frontier {
+				for _, s := range b.Succs {
+					if seen[s] || isCmpBlock(s, isScrut) || s.Dominates(start) {
+						continue
+					}
+					seen[s] = true
+					out = append(out, s)
+					next = append(next, s)
+				}
+			}
+			frontier = next
+		}
+		return out
+	}
+	// ---- writer table
+	ftParam := ssa.Value(w.Params[1])
+	dataParam := ssa.Value(w.Params[0])
+	isFT := func(v ssa.Value) bool { return stripValue(v) == ftParam }
+	wclass := map[int64]string{}
+	for k, bs := range bodies(w, isFT) {
+		for _, body := range bs {
+			for _, blk := range region(body, 3, isFT) {
+				for _, in := range blk.Instrs {
+					call, ok := in.(*ssa.Call)
+					if !ok {
+						continue
+					}
+					bi, ok := call.Call.Value.(*ssa.Builtin)
+					if !ok || bi.Name() != "append" || stripValue(call.Call.Args[0]) != dataParam {
+						continue
+					}
+					arg := stripValue(call.Call.Args[1])
+					cls := "?"
+					switch x := arg.(type) {
+					case *ssa.Slice:
+						if hi, ok := constInt(x.High); ok && x.High != nil {
+							if _, isArr := x.X.(*ssa.Alloc); !isArr {
+								cls = fmt.Sprintf("fixed%d", hi)
+							}
+						}
+						if cls == "?" {
+							if arr, ok := x.X.(*ssa.Alloc); ok {
+								if pt, ok := arr.Type().Underlying().(*types.Pointer); ok {
+									if at, ok := pt.Elem().Underlying().(*types.Array); ok {
+										cls = fmt.Sprintf("fixed%d", at.Len()) // append(data, t[0])
+									}
+								}
+							}
+						}
+					case *ssa.Call:
+						if callsFunc(&x.Call, lenencW) {
+							cls = "lenenc"
+						}
+					default:
+						cls = "self-prefixed" // append(data, t...) : the value carries its own length byte
+					}
+					if prev, ok := wclass[k]; ok && prev != cls {
+						cls = prev + "|" + cls
+					}
+					wclass[k] = cls
+				}
+			}
+		}
+	}
+	// ---- reader table
+	isTypeLoad := func(v ssa.Value) bool { return loadedField(resolveLoad(stripValue(v))) == fType }
+	rclass := map[int64]string{}
+	for k, bs := range bodies(rd, isTypeLoad) {
+		for _, body := range bs {
+			cls := ""
+			set := func(s string) {
+				if cls == "" || cls == s {
+					cls = s
+				} else if !strings.Contains(cls, s) {
+					cls = cls + "|" + s
+				}
+			}
+			for _, blk := range region(body, 6, isTypeLoad) {
+				for _, in := range blk.Instrs {
+					switch x := in.(type) {
+					case *ssa.Call:
+						if callsFunc(&x.Call, lenencR) {
+							set("lenenc")
+						}
+						if callsFunc(&x.Call, lenInt) {
+							set("self-prefixed")
+						}
+					case *ssa.BinOp:
+						if x.Op == token.ADD {
+							if n, ok := constInt(x.Y); ok && (n == 1 || n == 2 || n == 4 || n == 8) {
+								if _, isPhi := stripValue(x.X).(*ssa.Phi); isPhi && x.Type().Underlying() == types.Typ[types.Int] {
+									set(fmt.Sprintf("fixed%d", n))
+								}
+							}
+						}
+					}
+				}
+			}
+			if cls != "" {
+				rclass[k] = cls
+			}
+		}
+	}
+	if len(wclass) < 10 || len(rclass) < 10 {
+		r.undecided(rule, "mysql", "tables", "-", fmt.Sprintf("could not read the two tables (writer %d types, reader %d types)", len(wclass), len(rclass)))
+		return
+	}
+	var keys []int64
+	for k := range wclass {
+		keys = append(keys, k)
+	}
+	for k := range rclass {
+		if _, ok := wclass[k]; !ok {
+			keys = append(keys, k)
+		}
+	}
+	for i := 1; i < len(keys); i++ {
+		for j := i; j > 0 && keys[j] < keys[j-1]; j-- {
+			keys[j], keys[j-1] = keys[j-1], keys[j]
+		}
+	}
+	for _, k := range keys {
+		nm := fmt.Sprintf("type#%d", k)
+		if ns := names[k]; len(ns) > 0 {
+			sortStrings(ns)
+			nm = strings.Join(ns, "/")
+		}
+		wc, wok := wclass[k]
+		rc, rok := rclass[k]
+		cons := "wire-class:" + nm
+		// reader classes may contain a self-prefixed read followed by fixed advances inside the temporal decoding; the
+		// leading class decides
+		rlead := rc
+		if strings.Contains(rc, "self-prefixed") {
+			rlead = "self-prefixed"
+		} else if strings.Contains(rc, "lenenc") {
+			rlead = "lenenc"
+		}
+		switch {
+		case wok && rok && wc == rlead:
+			r.ok(rule, c.FuncName(w), cons, c.Pos(w.Pos()), fmt.Sprintf("written as %s, read as %s", wc, rlead))
+		case wok && rok:
+			r.viol(rule, c.FuncName(w), cons, c.Pos(w.Pos()), fmt.Sprintf("AppendBinaryValue writes %s as %s but the repository's binary-row reader ParseBinary reads that type as %s: the value and every later column of the row are decoded wrongly by a client", nm, wc, rlead))
+		case wok:
+			r.info(rule, c.FuncName(w), cons, c.Pos(w.Pos()), fmt.Sprintf("written as %s; the reader has no case for it", wc))
+		default:
+			r.info(rule, c.FuncName(rd), cons, c.Pos(rd.Pos()), fmt.Sprintf("read as %s; the writer refuses the type (error instead of a value)", rlead))
+		}
+	}
+}
